@@ -1,6 +1,6 @@
 (** Extraction of the executable model for the correspondence driver.
     ExtrOcamlBasic only; N and Z stay the extracted inductives. *)
-Require Import Base Kinds GenUnionTable Schema Varint Utf8 Sval Ser Rabin CrcSpec Text CanonicalForm Target Reader De VectoredWrite AvroValue Encoding Denote.
+Require Import Base Kinds GenUnionTable Schema Varint Utf8 Sval Ser Rabin CrcSpec Text CanonicalForm Target Reader De VectoredWrite AvroValue Encoding Denote Container FileSpec.
 Require Extraction.
 Require Import ExtrOcamlBasic.
 Extraction Language OCaml.
@@ -16,4 +16,6 @@ Separate Extraction
   De.de_datum De.cfg_default Reader.slice_reader Reader.chunked_reader
   VectoredWrite.write_all_vectored
   AvroValue.conforms Encoding.encode_e Encoding.erase Encoding.layout_ok Encoding.canon Encoding.spec_encode
+  Container.wbuild Container.wrun Container.cr_open Container.cr_run Container.mkCR
+  FileSpec.ref_parse
   Denote.dval_any Denote.present Denote.erase_borrow Denote.typed_target Denote.dval_typed.
